@@ -63,6 +63,7 @@ def choicesAt (l : Loc) (cs : ConnSt) (fresh : Nat) : List Choice :=
   | .b2 => [{ body := .signal "k" }, { body := .signal "o" }, { body := .endTx }, { body := .panic }]
   | .p2 => [{ body := .beginTx }, { body := .finish false, found := true }, { body := .finish false, found := false }, { body := .panic }]
   | .p5 => [{ wake := true }, { wake := false }]
+  | .flush => [{ flushOk := true }, { flushOk := false }]
   | _ => [{}]
 
 def insertCand (l : List Cand) (c : Cand) : List Cand := if l.contains c then l else c :: l
